@@ -11,6 +11,7 @@ import (
 	"sync"
 	"testing"
 
+	"github.com/jackc/pgx/v5/pgconn"
 	"pgregory.net/rapid"
 
 	"github.com/formancehq/go-libs/v5/pkg/types/metadata"
@@ -167,6 +168,11 @@ func withFault(sim *pgsim.DB, plan faultPlan, op func()) opTrace {
 		if plan.Kind == "stmt-before" && tr.Stmts == plan.At {
 			tr.Fired = true
 			return errInjected
+		}
+		if plan.Kind == "deadlock" && tr.Stmts == plan.At && !tr.Fired {
+			// the statement is chosen as the victim of a deadlock: a retryable failure
+			tr.Fired = true
+			return &pgconn.PgError{Severity: "ERROR", Code: "40P01", Message: "deadlock detected"}
 		}
 		return nil
 	}
